@@ -191,6 +191,7 @@ func props() map[string]Prop {
 				{Name: "uploader", Pkg: "internal/upload", Harness: "internal_upload", Run: "^TestVerifC11Uploader$", Instrument: uploadInstr, Timeout: 30 * time.Minute},
 				{Name: "server", Module: "godev", Pkg: "cmd/telemetrygodev", Harness: "godev_server", Run: "^TestVerifC11Server$", Timeout: 30 * time.Minute},
 				{Name: "viewer", Pkg: "cmd/gotelemetry/internal/view", Harness: "cmd_view", Run: "^TestVerifC11Viewer$", Timeout: 30 * time.Minute},
+				{Name: "viewercfg", Pkg: "cmd/gotelemetry/internal/view", Harness: "cmd_view", Run: "^TestVerifC11ViewerConfig$", Timeout: 30 * time.Minute},
 			},
 			Assume: []string{"all rates are 1 and sampling is off, so that approval is isolated from sampling", "the three legs are chained through files written by the uploader leg in the same run"},
 		},
